@@ -1446,46 +1446,57 @@ func (x *xl) emitFunc(s *fsig) string {
 	return b.String()
 }
 
-// codecShape lists, per function of currency_gen.go, the members of package msgp it mentions (source order)
+// codecShape: for each codec method of currency_gen.go (MarshalMsg, UnmarshalMsg, Msgsize) the SET of msgp members
+// reachable from it through functions and methods of the same file (sorted) — independent of how the code is laid out
 func codecShape(path string) string {
 	fset := token.NewFileSet()
 	file, err := parser.ParseFile(fset, path, nil, 0)
 	if err != nil {
 		panic(xlateError{err.Error()})
 	}
-	var sb strings.Builder
-	sb.WriteString("/-- currency_gen.go: the msgp members each codec method uses, in source order -/\ndef codecCalls : List (String × List String) := [")
-	first := true
+	decls := map[string]*ast.FuncDecl{} // functions and methods by bare name
 	for _, d := range file.Decls {
-		fd, ok := d.(*ast.FuncDecl)
-		if !ok || fd.Body == nil {
-			continue
+		if fd, ok := d.(*ast.FuncDecl); ok && fd.Body != nil {
+			decls[fd.Name.Name] = fd
 		}
-		name := fd.Name.Name
-		if fd.Recv != nil && len(fd.Recv.List) == 1 {
-			switch t := fd.Recv.List[0].Type.(type) {
-			case *ast.Ident:
-				name = t.Name + "." + name
-			case *ast.StarExpr:
-				if id, ok := t.X.(*ast.Ident); ok {
-					name = "*" + id.Name + "." + name
-				}
-			}
+	}
+	var reach func(name string, seen map[string]bool, out map[string]bool)
+	reach = func(name string, seen map[string]bool, out map[string]bool) {
+		fd, ok := decls[name]
+		if !ok || seen[name] {
+			return
 		}
-		var uses []string
+		seen[name] = true
 		ast.Inspect(fd.Body, func(n ast.Node) bool {
-			if sel, ok := n.(*ast.SelectorExpr); ok {
-				if id, ok := sel.X.(*ast.Ident); ok && id.Name == "msgp" {
-					uses = append(uses, fmt.Sprintf("%q", sel.Sel.Name))
+			switch v := n.(type) {
+			case *ast.SelectorExpr:
+				if id, ok := v.X.(*ast.Ident); ok && id.Name == "msgp" {
+					out[v.Sel.Name] = true
+				} else {
+					reach(v.Sel.Name, seen, out) // a method of this file (z.Msgsize())
+				}
+			case *ast.CallExpr:
+				if id, ok := v.Fun.(*ast.Ident); ok {
+					reach(id.Name, seen, out)
 				}
 			}
 			return true
 		})
-		if !first {
+	}
+	var sb strings.Builder
+	sb.WriteString("/-- currency_gen.go: the msgp members reachable from each codec method (through helpers of the file), sorted -/\ndef codecPrimitives : List (String × List String) := [")
+	for i, m := range []string{"MarshalMsg", "UnmarshalMsg", "Msgsize"} {
+		out := map[string]bool{}
+		reach(m, map[string]bool{}, out)
+		var names []string
+		for n := range out {
+			names = append(names, fmt.Sprintf("%q", n))
+		}
+		sort.Strings(names)
+		if i > 0 {
 			sb.WriteString(", ")
 		}
-		first = false
-		fmt.Fprintf(&sb, "(%q, [%s])", name, strings.Join(uses, ", "))
+		fmt.Fprintf(&sb, "(%q, [%s])", m, strings.Join(names, ", "))
 	}
 	sb.WriteString("]\n\n")
 	return sb.String()
